@@ -790,6 +790,10 @@ func c15Tables(c *Ctx, r *Report, rule string) {
 				}
 			}
 			zeroFields(sc.Heap, "m", fn.Signature.Recv().Type())
+			if _, isList := deref(fn.Signature.Recv().Type()).Underlying().(*types.Slice); isList {
+				z := symInt(0) // a matcher that is a list (MatchALPN): a fresh, empty one
+				sc.Heap["m"] = SV{K: "slice", Desc: "m", Len: &z, Cap: &z, Known: true, Nil: true}
+			}
 			cfCalls(sc, cfTokenize(cs.src), base.Call)
 			cfModules(c, sc)
 			sc.Heap["disp#0.cursor"] = symInt(int64(tb.pre - 1))
@@ -827,6 +831,8 @@ func c15Tables(c *Ctx, r *Report, rule string) {
 				for _, f := range fields {
 					got := "?"
 					if v, ok := p.Heap["m."+f]; ok {
+						got = renderHeap(p.Heap, nil, v)
+					} else if v, ok := p.Heap["m"]; ok && f == "*" { // the receiver itself is the value (a named list type)
 						got = renderHeap(p.Heap, nil, v)
 					}
 					if got != cs.want[f] {
@@ -1376,7 +1382,9 @@ var cfTables = []cfTable{
 	{
 		fn: "modules/l4tls.(*MatchALPN).UnmarshalCaddyfile", source: "alpn <values...>",
 		cases: []cfCase{
-			{"one value", "alpn h2", map[string]string{}},
+			{"one value", "alpn h2", map[string]string{"*": `["h2"]`}},
+			{"two values", "alpn h2 http/1.1", map[string]string{"*": `["h2" "http/1.1"]`}},
+			{"two lines add up (what the tls matcher's parser hands on for a repeated line)", "alpn h2\nalpn http/1.1", map[string]string{"*": `["h2" "http/1.1"]`}},
 			{"no value", "alpn", nil},
 		},
 	},
